@@ -12,7 +12,6 @@ import (
 	"path/filepath"
 	"sort"
 	"strconv"
-	"strings"
 
 	"github.com/google/pprof/internal/driver"
 	"github.com/google/pprof/internal/graph"
@@ -62,20 +61,11 @@ func c17Dump(ss report.StackSet) Term {
 	return L(Z(ss.Total), Rat(ss.Scale), S(ss.Type), S(ss.Unit), L(stacks...), L(srcs...), ZI(nulls))
 }
 
-// c17FromJSON parses the JSON the /flamegraph page hands to stackViewer(...) into the same layout.
-// Every JSON null, every missing field and every value of the wrong JSON type counts as a null.
-func c17FromJSON(page string) Term {
-	const marker = "stackViewer("
-	i := strings.LastIndex(page, marker)
-	if i < 0 {
-		return L(S("no-stack-data"))
-	}
-	dec := json.NewDecoder(strings.NewReader(page[i+len(marker):]))
-	dec.UseNumber()
-	var v interface{}
-	if err := dec.Decode(&v); err != nil {
-		return L(S("bad-json"), S(err.Error()))
-	}
+// c17FromJSON turns the decoded first argument of stackViewer(...) (v) and the second one (nodes,
+// the per-source name list the page's viewer indexes by source number) into the layout of c17Dump.
+// Every JSON null, every missing field and every value of the wrong JSON type counts as a null,
+// and so does a node list that does not have exactly one string per source.
+func c17FromJSON(v interface{}, nodes interface{}) Term {
 	nulls := 0
 	obj := func(v interface{}) map[string]interface{} {
 		m, ok := v.(map[string]interface{})
@@ -145,6 +135,15 @@ func c17FromJSON(page string) Term {
 			nulls++
 		}
 		srcs = append(srcs, L(str(m["FullName"]), str(m["FileName"]), str(m["UniqueName"]), Bool(inl), L(disp...), L(pl...), num(m["Self"])))
+	}
+	if na, ok := nodes.([]interface{}); !ok || len(na) != len(srcs) {
+		nulls++
+	} else {
+		for _, n := range na {
+			if _, ok := n.(string); !ok {
+				nulls++
+			}
+		}
 	}
 	return L(num(top["Total"]), scale, str(top["Type"]), str(top["Unit"]), L(stacks...), L(srcs...), ZI(nulls))
 }
@@ -392,6 +391,14 @@ func c17Features(p *profile.Profile) (tags []string, frames int) {
 var c17Names = []string{"main", "foo", "bar", "a.b.c", "ns::cls::f", "pkg/path.Func", "f", "", "?1?", "?2?", "x.", "op::", "a:b",
 	"runtime.mallocgc", "main.(*T).m", "std::vector<int>::push_back(int const&)", "java.util.List.add", "main.f.func1"}
 var c17NamesBin = []string{"a\"b", "x\ny", "<tpl>", "\xff\xfe", "日本.語", "100%#1", "root"}
+// names and files that matter to whoever reads the served page: HTML tokenizer triggers inside an
+// inline script (end tags in any letter case and with the delimiters the tokenizer accepts, comment
+// and nested-script openers that switch it to the escaped states), other raw-text end tags, template
+// and JavaScript syntax, the characters JSON must escape.  All valid UTF-8.
+var c17NamesWeb = []string{"a</script>b", "x</SCRIPT >y", "</ScRiPt/", "</script\n", "</scriptx>", "<!--", "<!--<script>", "-->", "<script>alert(1)</script>",
+	"render(\"<b>x</b>\")", "a<b>&c", "operator<=>", "q\"uote", "back\\slash", "tab\tname", "nl\nname", "ctl\x01\x1f", "del\x7f", "</style>", "</title>", "</textarea>",
+	"]]>", "{{.Stacks}}", "'); alert(1); ('", "*/", "//", "`${x}`", "é.ü::ß", "&lt;", "\\u003c"}
+var c17FilesWeb = []string{"x</script>.js", "dir/<b>.go", "a&b.c", "tpl/{{.}}.html", "/src/</SCRIPT>/y.go", "q\"f.go"}
 var c17Files = []string{"main.go", "foo.c", "dir/bar.cc", "", "/proc/self/cwd/foo.c", "/proc/self/cwd/./bar.c", "dir/../x.go", "a//b.go",
 	"/src/lib/x.go", "/src/x.go", "./rel.go", "/other/y.go", "main.go/"}
 var c17Trims = []string{"", "", "", "/src", "/src/", "/src/lib:/other", ":", "dir", "/nowhere:/src/lib/"}
@@ -416,6 +423,12 @@ func c17Knobs(r *Rng, web bool) Knobs {
 	k.Files = c17Files
 	if r.P(1, 3) {
 		k.Files = []string{PickS(r, c17Files), PickS(r, c17Files)}
+	}
+	if web && r.P(1, 3) { // content the page's consumers (HTML tokenizer, JS, JSON) could trip over
+		k.Names = append([]string{PickS(r, c17Names), PickS(r, c17Names)}, PickS(r, c17NamesWeb), PickS(r, c17NamesWeb), PickS(r, c17NamesWeb))
+		if r.Bool() {
+			k.Files = append([]string{PickS(r, c17Files)}, PickS(r, c17FilesWeb), PickS(r, c17FilesWeb))
+		}
 	}
 	return k
 }
@@ -605,7 +618,7 @@ func c17WebSeq(c *Ctx, gen string, p *profile.Profile, r *Rng) {
 		ft, frames := c17Features(rp)
 		obs := L(S("http"), ZI(st.Status))
 		if st.Status == 200 {
-			obs = c17FromJSON(st.Page)
+			obs = c17FromPage(st.Page)
 		}
 		c.Case(gen, in, obs, frames > 0, append([]string{"path:web", "gran:" + grans[k], fmt.Sprintf("request:%d", k+1)}, ft...)...)
 	}
@@ -636,7 +649,7 @@ func c17Web(c *Ctx, gen string, p *profile.Profile, r *Rng) {
 			obs = L(S("http"), ZI(status))
 			return
 		}
-		obs = c17FromJSON(page)
+		obs = c17FromPage(page)
 	}()
 	c.Case(gen, in, obs, frames > 0, append([]string{"path:web", "gran:" + gran}, ft...)...)
 }
@@ -795,6 +808,18 @@ func runC17(c *Ctx) {
 			}
 			c17Seq(c, "interleave", p, os, steps, tags...)
 		}
+	}
+	// every page-hostile name and file once, through the handler, with names shown (functions) and
+	// with file names shown (files granularity)
+	for i := 0; i < len(c17NamesWeb); i += 3 {
+		p := &profile.Profile{SampleType: []*profile.ValueType{{Type: "cpu", Unit: "ms"}}}
+		for j := i; j < i+3 && j < len(c17NamesWeb); j++ {
+			f := &profile.Function{ID: uint64(j - i + 1), Name: c17NamesWeb[j], SystemName: c17NamesWeb[j], Filename: c17FilesWeb[j%len(c17FilesWeb)]}
+			l := &profile.Location{ID: uint64(j - i + 1), Line: []profile.Line{{Function: f, Line: int64(j)}}}
+			p.Function, p.Location = append(p.Function, f), append(p.Location, l)
+			p.Sample = append(p.Sample, &profile.Sample{Location: append([]*profile.Location{}, p.Location...), Value: []int64{int64(j + 1)}})
+		}
+		c17Web(c, "web-hostile-names", p, c.R)
 	}
 	for k := 0; k < c.Budget(50, 1500); k++ {
 		c17WebSeq(c, "web-session", c17Profile(c.R, true), c.R)
